@@ -214,7 +214,7 @@ func cmdCheck(args []string) int {
 		if _, err := exec.LookPath("cvc5"); err == nil && os.Getenv("VERIF_NOMIRROR") == "" {
 			// every check-sat is also decided by cvc5 on the same incremental session; two decided verdicts that
 			// differ make the query inconclusive
-			eng.MirrorBin = []string{"cvc5", "--incremental", "--tlimit-per=120000"}
+			eng.MirrorBin = []string{"cvc5", "--incremental", "--tlimit-per=20000"}
 		}
 	}
 	hs := eng.Harnesses()
@@ -468,13 +468,14 @@ func cmdCheck(args []string) int {
 		"functions_encoded":             map[string]interface{}{"count": nRepoFuncs, "all_including_std": len(funcs), "names": fnames},
 		"queries":                       map[string]interface{}{"total": queries, "assertions": asserts, "assertions_trivially_true_by_folding": trivial, "unsat": discharged, "unknown": inconcl},
 		"solver_s":                      solverT.Seconds(),
-		"second_solver":                 map[string]interface{}{"cmd": strings.Join(eng.MirrorBin, " "), "verdict_disagreements": eng.Disagreements, "sessions_lost": eng.MirrorLost},
+		"second_solver":                 map[string]interface{}{"cmd": strings.Join(eng.MirrorBin, " "), "assertion_queries_cross_checked": eng.MirrorChecks, "verdict_disagreements": eng.Disagreements, "sessions_lost": eng.MirrorLost},
 		"path_ends":                     ends,
 		"bounds":                        bounds,
 		"limits":                        map[string]interface{}{"call_depth": eng.Defaults.MaxDepth, "loop_unwind": eng.Defaults.LoopBound, "steps_per_path": eng.Defaults.MaxSteps, "solver_timeout_ms": eng.TimeoutMs},
 		"stubs_hit":                     keys(stubs),
 		"inconclusive":                  inconclusive,
-		"uncovered":                     hgen.Uncovered[id],
+		"uncovered":                     hgen.UncoveredFor(id),
+		"family_members_decided_by_other_checks": hgen.Elsewhere[id],
 		"known_findings_hit":            knownHits,
 		"task_switches":                 switches,
 		"exhaustive":                    len(inconclusive) == 0,
